@@ -1,6 +1,6 @@
 (* C10 — codec for the correspondence driver. *)
 From Coq Require Import Bool Arith ZArith String List.
-From CBI Require Import Lib.Res Lib.Data Model.C01 Spec.C01 Model.C04 Spec.C04 Model.C04i Model.C08 Spec.C08 Model.C08i Model.C10.
+From CBI Require Import Lib.Res Lib.Data Model.C01 Spec.C01 Model.C04 Spec.C04 Model.C04i Model.C08 Spec.C08 Model.C08i Model.C10 Model.C10g.
 Import ListNotations.
 Local Open Scope string_scope.
 
@@ -19,20 +19,27 @@ Definition enc_analysis (r : res (amap * setmap)) : data :=
   | Err e => DList [DStr "Err"; DStr e]
   end.
 
-(* case: (files weights config root x-patterns toml-patterns) ;
-   answer: (M-with-exclusion  M-without-exclusion  S-attribution  M-skipping-non-members  members) *)
+(* case: (files weights config root x-lines toml-lines shapes-flag x-patterns toml-patterns) ;
+   the lines are the raw gitignore lines (membership by C09's matcher, Model/C10g.v); when every
+   pattern has one of the four shapes of Model/C10.v the structured lists are given too and the
+   four-shape matcher is run as a second opinion.
+   answer: (M-with-exclusion  M-without-exclusion  S-attribution  M-skipping-non-members  members
+            M-with-exclusion-by-the-four-shape-matcher | (none)) *)
 Definition run_C10 (d : data) : data :=
   match d with
-  | DList [files; wts; cfg; root; xs; ts] =>
+  | DList [files; wts; cfg; root; xl; tl; flag; xs; ts] =>
       match as_list_of dec_file files, dec_weights wts, dec_config cfg, dec_path root,
+            as_list_of as_str xl, as_list_of as_str tl, as_bool flag,
             as_list_of dec_pat xs, as_list_of dec_pat ts with
-      | Some fs, Some wts, Some cfg, Some root, Some xs, Some ts =>
-          DList [enc_analysis (analyse fs include_depth root xs ts (wt_of wts) cfg);
-                 enc_analysis (analyse fs include_depth root [] [] (wt_of wts) cfg);
+      | Some fs, Some wts, Some cfg, Some root, Some xl, Some tl, Some flag, Some xs, Some ts =>
+          DList [enc_analysis (analyse_git fs include_depth root xl tl (wt_of wts) cfg);
+                 enc_analysis (analyse_git fs include_depth root [] [] (wt_of wts) cfg);
                  enc_amap (spec_S fs include_depth cfg);
-                 enc_analysis (analyse_skipping fs include_depth root xs ts (wt_of wts) cfg);
-                 of_list enc_path (map fst (filter (fun fl => member_of root (effective xs ts) (fst fl)) fs))]
-      | _, _, _, _, _, _ => bad_case
+                 enc_analysis (analyse_git_skipping fs include_depth root xl tl (wt_of wts) cfg);
+                 of_list enc_path (map fst (filter (fun fl => member_git fs root (effective xl tl) (fst fl)) fs));
+                 if flag then enc_analysis (analyse fs include_depth root xs ts (wt_of wts) cfg)
+                 else DList [DStr "none"]]
+      | _, _, _, _, _, _, _, _, _ => bad_case
       end
   | _ => bad_case
   end.
